@@ -788,9 +788,24 @@ def class_forms(rep, mod, rule, rule_elide):
             probs.append('an interface is classified %d times' % len(apps))
             continue
         where = alloc_site(apps[0].r.func.value)
-        ext = [t for c, t, p in ps.order
-               if c == '%s.extends(EACH(%s.declared))' % (Ex, SPEC)]
-        other = [c for c in each_conditions(ps, src) if 'extends(EACH(' not in c]
+        def is_placement(c):
+            if c == '%s.extends(EACH(%s.declared))' % (Ex, SPEC):
+                return True
+            try:
+                e = _parse(c)
+            except SyntaxError:
+                return False
+            # any(<iface>.extends(d) for d in <spec>.declared)
+            if isinstance(e, ast.Call) and dotted(e.func) == 'any' and len(e.args) == 1 \
+                    and isinstance(e.args[0], (ast.GeneratorExp, ast.ListComp)) \
+                    and len(e.args[0].generators) == 1:
+                g = e.args[0].generators[0]
+                return not g.ifs and isinstance(g.target, ast.Name) and \
+                    nt(g.iter) == '%s.declared' % SPEC and \
+                    nt(e.args[0].elt) == '%s.extends(%s)' % (Ex, g.target.id)
+            return False
+        ext = [t for c, t, p in ps.order if is_placement(c)]
+        other = [c for c in each_conditions(ps, src) if not is_placement(c)]
         if other:
             probs.append('placement depends on `%s`' % other[0][:60])
         front = bool(ext) and ext[-1]
@@ -861,14 +876,20 @@ def class_forms(rep, mod, rule, rule_elide):
     for ps in normal(summaries(h)):
         r = ps.ret
         parts = None
+        if isinstance(r, ast.Call) and dotted(r.func) == 'tuple' and len(r.args) == 1 \
+                and isinstance(r.args[0], ast.BinOp):
+            r = r.args[0]      # tuple(kept + [spec])
         if isinstance(r, ast.BinOp) and isinstance(r.op, ast.Add):
-            parts = (r.left, r.right)
+            right = r.right
+            if isinstance(right, ast.List):
+                right = ast.Tuple(elts=right.elts, ctx=ast.Load())
+            parts = (r.left, right)
         elif isinstance(r, ast.Tuple) and len(r.elts) == 2 and \
                 isinstance(r.elts[0], ast.Starred):
             parts = (r.elts[0].value, ast.Tuple(elts=[r.elts[1]], ctx=ast.Load()))
         if parts is None or nt(parts[1]) != '(%s,)' % IMP:
             probs.append('returns `%s` (required: kept interfaces + the class '
-                         'specification last)' % nt(r)[:80])
+                         'specification last)' % nt(ps.ret)[:80])
             continue
         kept = parts[0]
         if isinstance(kept, ast.Call) and dotted(kept.func) in ('tuple', 'list') and kept.args:
